@@ -30,6 +30,7 @@ class Outcome:
         self.action_counts = {}
         self.selftests = []
         self.more_rejections = 0
+        self.need_selftest = False
 
 
 def gen_registries(cfg, out, module="GenReg.tla"):
@@ -191,6 +192,11 @@ def selftest_corruption(exe, script_obj, out, mutate, label, trace_cfg, trace_mo
     with open(tp) as f:
         lines = f.readlines()
     _, rej0 = C.validate_trace(trace_module, trace_cfg, tp, parts=1)
+    if rej0:
+        # the unmodified execution is itself rejected (a violation reported by the main run):
+        # nothing can be learnt from corrupting it
+        out.selftests.append({"label": label, "applied": False, "note": "clean execution rejected"})
+        return None
     new = mutate(list(lines))
     if new == lines:
         out.selftests.append({"label": label, "applied": False})
@@ -221,8 +227,10 @@ def report(pid, tier, seed, out, t0, level, rule, assumptions, extra_cov=None, e
     if out.more_rejections:
         print("  (+%d further rejected executions not individually re-run)" % out.more_rejections)
     for st in out.selftests:
-        if st.get("applied") and not (st.get("clean_accepted") and st.get("corrupt_rejected")):
+        if not violations and st.get("applied") and not (st.get("clean_accepted") and st.get("corrupt_rejected")):
             raise C.ToolFailure("self-test '%s' failed: the trace spec does not bind (%s)" % (st["label"], st))
+    if not violations and out.need_selftest and not any(st.get("applied") and st.get("corrupt_rejected") for st in out.selftests):
+        raise C.ToolFailure("self-test: no corrupted trace was rejected")
     cov = {
         "states": out.model_distinct + out.trace_distinct,
         "transitions": out.model_states + out.trace_states,
